@@ -186,6 +186,21 @@ def check_helpers(K, with_sid, with_pi, flags, ids, rec: Recorder, node, apps):
         if has_pi:
             req.proxy_info = [ProxyInfo(proxy_host=b"p1.example", proxy_state=b"\x01\x02"),
                               ProxyInfo(proxy_host=b"p2.example", proxy_state=b"")]
+            if flags & 0x40:
+                # ... as received from a proxy that adds a member of its own to its Proxy-Info (the AVP is defined
+                # with "* [ AVP ]"): the request is what decoding those bytes gives
+                from diameter.message import Message
+                from checks.c03 import _enc_tree
+                try:
+                    hdr_, tree_ = R.parse_message(req.as_bytes(), R.dict_is_grouped)
+                    pis = [a for a in tree_ if a.code == 284 and a.vendor == 0 and a.children is not None]
+                    pis[0].children.append(R.parse_avps(R.enc_avp(16777009, 0, 0x00, b"proxy-private"))[0])
+                    req = Message.from_bytes(R.enc_message(hdr_["version"], hdr_["flags"], hdr_["code"], hdr_["app_id"],
+                                                           hdr_["hbh"], hdr_["e2e"], _enc_tree(tree_)))
+                    rec.cls("helper:proxy-info-with-extra-member")
+                except Exception as e:
+                    rec.violation(f"C20/helper-raises/decode/{type(e).__name__}", dict(case, how=how), repr(e))
+                    continue
         req_tree = R.parse_message(req.as_bytes(), R.dict_is_grouped)[1]
         try:
             if how == "node":
@@ -378,7 +393,7 @@ def run(tier, scale=1.0):
     rec = Recorder(PID)
     for d in hyp.pool_run(shard_main, (tier, scale)):
         rec.merge(d)
-    required = {"wire:zero-hbh": 1, "wire:zero-e2e": 1, "wire:CER": 1, "wire:DPR": 1, "wire:REQ": 1, "wire:REQ-unknown-app": 1,
+    required = {"helper:proxy-info-with-extra-member": 1, "wire:zero-hbh": 1, "wire:zero-e2e": 1, "wire:CER": 1, "wire:DPR": 1, "wire:REQ": 1, "wire:REQ-unknown-app": 1,
                 "wire:REQ-incomplete": 1, "wire:REQ-handler-raises": 1, "wire:REQ-threading": 1, "kind:typed": 1, "kind:generic": 1, "req-class": 1, "non-req-class": 1,
                 "helper:node": 1, "helper:app-auth": 1, "helper:sid=True": 1, "helper:pi=True": 1}
     return finish(rec, tier=tier, level="exploration", rule=RULE, assumptions=ASSUME, t0=t0,
